@@ -11,6 +11,10 @@ pyvc/ext/cframes.py apply too.
         (R1: BLAS' order of summation and rounding are not modelled; floats are reals)
  D2  v[:, None], v real of rank 1 and length n            r: real[2] of shape (n, 1),  r[i, 0] == v[i]
         (numpy returns a VIEW; read as a snapshot -- exact where the expression is consumed at once by D3)
+ D4  r @ C, r real of rank 1 (length n), C real of shape (n2, m)      obligation shape-eq: n == n2;  v: real[1], FRESH, length m,
+        v[j] == sumto(n, lambda a: r[a] * C[a, j])                      (vector-matrix product)
+     v @ r, v and r real of rank 1 (lengths m, m2)                      obligation shape-eq: m == m2;  the real SCALAR
+        sumto(m, lambda b: v[b] * r[b])                                 (inner product)
  D3  A / c, A real of shape (n, p), c real of shape (n2, 1)   (numpy broadcasting of a column over the columns of a matrix)
         obligations shape-eq: n == n2,  div: forall i < n: c[i, 0] != 0;   r: real[2], FRESH, shape (n, p),
         r[i, j] == A[i, j] / c[i, 0]
@@ -83,7 +87,17 @@ def install():
 
     prev_arr_binop = Engine.arr_binop
 
-    def arr_binop(self, op, a, b, st):                                        # D3
+    def arr_binop(self, op, a, b, st):                                        # D3, D4
+        if _on(self) and isinstance(op, ast.MatMult) and _is_arr(a) and _is_arr(b):
+            A, C = self.deref(a, st), self.deref(b, st)
+            if A.elem != "real" or C.elem != "real" or A.rank != 1 or C.rank not in (1, 2):
+                raise OutsideSubset("@ : only real vector @ matrix and vector @ vector (line %s)" % self.cur_line)
+            _shape_eq(self, st, A.shape[0], C.shape[0])
+            env = {"r_": Arr(A.data, A.shape, A.elem), "C_": Arr(C.data, C.shape, C.elem), "n_": A.shape[0]}
+            if C.rank == 1:
+                return self.evs("sumto(n_, lambda b: r_[b] * C_[b])", st, env)
+            return _lam(self, st, (C.shape[1],), "real",
+                        lambda idx: toz(self.evs("sumto(n_, lambda a: r_[a] * C_[a, j_])", st, {**env, "j_": idx[0]})))
         if _on(self) and isinstance(op, ast.Div) and _is_arr(a) and _is_arr(b):
             A, C = self.deref(a, st), self.deref(b, st)
             if A.rank == 2 and C.rank == 2 and A.elem == "real" and C.elem == "real" and isinstance(C.shape[1], int) and C.shape[1] == 1 \
@@ -146,6 +160,11 @@ def _selfcheck():
         if q is not None:
             assert q.shape == (n, k) and not np.shares_memory(q, A)
             assert all(q[i, j] == A[i, j] / c[i, 0] for i in range(n) for j in range(k))
+        if n:
+            C = rng.uniform(-2, 2, (n, n)); rv = rng.uniform(-2, 2, (n,))
+            w = rv @ C
+            assert w.shape == (n,) and all(abs(w[j] - sum(rv[a] * C[a, j] for a in range(n))) < 1e-12 for j in range(n))
+            assert abs(w @ rv - sum(w[b] * rv[b] for b in range(n))) < 1e-12
         t = A.T
         assert t.shape == (k, n) and all(t[j, i] == A[i, j] for i in range(n) for j in range(k))
     return True
